@@ -53,6 +53,41 @@ func goid() int {
 	return -1
 }
 
+// memTsLoader: an in-memory loader with modification times (twig.TimestampAwareLoader)
+type memTsLoader struct {
+	mu  sync.Mutex
+	src map[string]string
+	mt  map[string]int64
+}
+
+func (l *memTsLoader) set(name, src string, mt int64) {
+	l.mu.Lock()
+	defer l.mu.Unlock()
+	l.src[name], l.mt[name] = src, mt
+}
+func (l *memTsLoader) Load(name string) (string, error) {
+	l.mu.Lock()
+	defer l.mu.Unlock()
+	if s, ok := l.src[name]; ok {
+		return s, nil
+	}
+	return "", fmt.Errorf("%w: %s", twig.ErrTemplateNotFound, name)
+}
+func (l *memTsLoader) Exists(name string) bool {
+	l.mu.Lock()
+	defer l.mu.Unlock()
+	_, ok := l.src[name]
+	return ok
+}
+func (l *memTsLoader) GetModifiedTime(name string) (int64, error) {
+	l.mu.Lock()
+	defer l.mu.Unlock()
+	if mt, ok := l.mt[name]; ok {
+		return mt, nil
+	}
+	return 0, fmt.Errorf("%w: %s", twig.ErrTemplateNotFound, name)
+}
+
 type gateSched struct {
 	mu      sync.Mutex
 	ids     map[int]int // goroutine id -> index
@@ -118,6 +153,22 @@ func runSchedule(c *SCase, dir string) (res Result) {
 			}
 			calls[g] = call{do: func() (string, error) { return e.Render("dir"+d+"/main.twig", map[string]interface{}{"x": g}) },
 				want: map[int]string{1: fmt.Sprintf("%s:part%s(%d):%d", d, d, g, g)}}
+		}
+	case "reload":
+		// version 1 is cached from a timestamp-aware loader; the loader has held version 2 with a newer stamp since
+		// before any of the calls, auto-reload is on: every call must see version 2
+		ld := &memTsLoader{src: map[string]string{"same": "ver:1:{{ x }}"}, mt: map[string]int64{"same": 1}}
+		e.RegisterLoader(ld)
+		e.SetAutoReload(true)
+		if out, err := e.Render("same", map[string]interface{}{"x": 0}); err != nil || out != "ver:1:0" {
+			fail("harness: reload setup", fmt.Sprint(out, err), "ver:1:0")
+			return
+		}
+		ld.set("same", "ver:2:{{ x }}", 2)
+		for g := 1; g <= c.NG; g++ {
+			g := g
+			calls[g] = call{do: func() (string, error) { return e.Render("same", map[string]interface{}{"x": g}) },
+				want: map[int]string{2: fmt.Sprintf("ver:2:%d", g)}}
 		}
 	case "regrender":
 		e.RegisterString("same", "ver:1:{{ x }}")
